@@ -173,6 +173,7 @@ package transaction
 //@   modifies *
 //@   opt no-callee-pre
 //@   opt inline-none
+//@   opt volatile bal, bal_stale
 //@   requires th != nil && ctx != nil
 //@   callpre SetBalance: !ghost(bal_stale)
 //@   loop 0: invariant !ghost(bal_stale)
